@@ -528,7 +528,7 @@ def parse_fn_directive(text):
     if len(allparts) < 3:
         raise SystemExit('template error: bad @fn header: ' + head)
     d = dict(file=allparts[0], impl=' :: '.join(allparts[1:-1]), name=allparts[-1], props=None, rename=None,
-             rules=[], sig=None, requires=[], ensures=[], loops={}, hints=[], ret='r', attrs=[], mode=None,
+             rules=[], norm=[], sig=None, requires=[], ensures=[], loops={}, hints=[], ret='r', attrs=[], mode=None,
              decreases=None, nloops=None, sigmap=[], callmap=[], range=False, checks=[], expect_before=None, expect_after=None)
     d['in'] = []
     d['from'] = d['to'] = d['as'] = d['returns'] = None
@@ -583,7 +583,7 @@ def parse_fn_directive(text):
 
     for ln in lines[1:]:
         s = ln.strip()
-        m = re.match(r'(props|rename|rules|sig|ret|attr|mode|decreases|nloops|sigmap|callmap|from|to|as|returns|in|expect_before|expect_after):\s*(.*)$', s) if not ln.startswith((' ', '\t')) else None
+        m = re.match(r'(props|rename|rules|norm|sig|ret|attr|mode|decreases|nloops|sigmap|callmap|from|to|as|returns|in|expect_before|expect_after):\s*(.*)$', s) if not ln.startswith((' ', '\t')) else None
         if m:
             flush()
             k, v = m.group(1), m.group(2).strip()
@@ -591,6 +591,8 @@ def parse_fn_directive(text):
                 d['props'] = v.split()
             elif k == 'rules':
                 d['rules'] += v.split()
+            elif k == 'norm':
+                d['norm'] += v.split()
             elif k == 'attr':
                 d['attrs'].append(v)
             elif k == 'nloops':
@@ -749,6 +751,16 @@ def build_function(repo, d, unit, em, report, vac=False, stub_of=None):
     ctx = dict(head=head, params=params, ret=ret, where=where, returns=(d['returns'] or '').strip() if d['range'] else None)
     # always-on drops
     body = R.drop_logging(body, fired)
+    # normalisations: rewrite an EQUIVALENT SPELLING of an idiom into the spelling the rules / contracts below
+    # were written against. Unlike `rules:` they may fire zero times (the canonical spelling is the normal case);
+    # they raise LostAnchor on a shape of their idiom they do not cover, exactly like a rule.
+    for r in d['norm']:
+        fn = find_rule(r)
+        if fn is None:
+            raise SystemExit('template error: unknown rule ' + r)
+        body, n = fn(body, ctx)
+        if n:
+            fired[r] = fired.get(r, 0) + n
     for r in d['rules']:
         fn = find_rule(r)
         if fn is None:
